@@ -176,7 +176,7 @@ def run(tier):
     shapes = tree.shapes_upto(nmax)
     t = core.Tally()
     jobs = [(MOD, "job", {"shapes": c}) for c in core.chunks(shapes[::-1], core.NPROC * 6)]
-    core.run_pool(jobs + [(MOD, "job_deep", {})], 0, into=t)
+    core.run_pool(jobs + [(MOD, "job_deep", {}), ("mc.positional", "job", {"pid": "C05"})], 0, into=t)
     core.run_pool([(MOD, "job", {"shapes": c}) for c in core.chunks(tree.shapes_upto(min(nmax, 6)), core.NPROC)], 1, into=t)
     cov = {
         "states": t.c["states"],
@@ -189,6 +189,6 @@ def run(tier):
                 "transition = one complete iteration; non-trivial = subtree with more than one node" % (nmax, len(shapes)),
         "bounds": {"max_nodes": nmax, "shapes": len(shapes), "assertions_on_upto": min(nmax, 6)},
     }
-    return {"tally": t, "coverage": cov, "guards": ("trees", "nontrivial", "zigzag_reversal_visible", "iterator_reuse_checks", "deep_chain_iterations"),
+    return {"tally": t, "coverage": cov, "guards": ("positional_calls", "trees", "nontrivial", "zigzag_reversal_visible", "iterator_reuse_checks", "deep_chain_iterations"),
             "assumptions": ["trees up to %d nodes; every loop of the iterators is over children lists or levels, all "
                             "branch combinations occur at depth<=4 and <=3 siblings" % nmax]}
